@@ -102,10 +102,10 @@ def run(ctx):
     ctx.stats.extra["puzzles_covered"] = sorted(specs)
     ctx.stats.extra["puzzles_not_covered"] = missing
     quick = ctx.quick()
-    n = 40 if quick else 300
+    n = 100 if quick else 400
     jobs = []
     for name in sorted(specs):
-        k = 1 if quick else 4
+        k = 2 if quick else 6
         for i in range(k):
             jobs.append((name, ctx.seed * 1000 + i, n, not quick))
     for r in pmap(shard, jobs):
